@@ -267,37 +267,42 @@ func c08(c *Ctx) {
 		if f == nil {
 			continue
 		}
-		bad := 0
-		n := 0
-		for _, b := range f.Blocks {
-			for _, in := range b.Instrs {
-				ret, ok := in.(*ssa.Return)
-				if !ok || len(ret.Results) != 2 || an.IsNilConst(ret.Results[1]) {
-					continue
-				}
-				d := an.NewDeps(nil).Of(ret.Results[1])
-				fromErr := false
-				for _, cs := range an.Calls(f) {
-					if cs.Common.IsInvoke() && cs.Common.Method.Name() == "Read" {
-						if call, ok := cs.Instr.(*ssa.Call); ok {
-							for _, rf := range *call.Referrers() {
-								if ex, ok := rf.(*ssa.Extract); ok && ex.Index == 1 && d.Visited(ex) {
-									fromErr = true
-								}
-							}
-						}
-					}
-				}
-				if !fromErr {
-					continue // a locally made error (short count)
-				}
-				n++
-				if !strings.HasPrefix(tr.OriginString(ret.Results[1]), "call:invoke:(io.Reader).Read#1") {
-					bad++
+		// each read of the connection: with its error fixed to the sentinel, every exit reachable after it returns
+		// that very error (a short-count complaint that is tested first would mask end of stream)
+		k := 0
+		for _, cs := range an.Calls(f) {
+			if !cs.Common.IsInvoke() || cs.Common.Method.Name() != "Read" {
+				continue
+			}
+			call, ok := cs.Instr.(*ssa.Call)
+			if !ok || call.Referrers() == nil {
+				continue
+			}
+			var errV ssa.Value
+			for _, rf := range *call.Referrers() {
+				if ex, ok := rf.(*ssa.Extract); ok && ex.Index == 1 {
+					errV = ex
 				}
 			}
+			k++
+			key := sprintf("unwrapped:mode.%s.ReadMsg/read#%d", strings.TrimPrefix(m, "*"), k)
+			if errV == nil {
+				r.Violate("R08.E", key, c.pos(cs.Pos()), "the error result of the connection's Read is dropped")
+				continue
+			}
+			for _, sn := range []string{"EOF", "Canceled"} {
+				bad, n := sentinelExits(f, errV, sn)
+				site := c.pos(cs.Pos())
+				if len(bad) > 0 {
+					site = c.pos(bad[0].Pos())
+				}
+				r.Check(len(bad) == 0 && n > 0, "R08.E", key+"/"+sn, site,
+					sprintf("with this Read's err = %s: %d reachable exits, %d of them return something other than err itself", sn, n, len(bad)))
+			}
 		}
-		r.Check(bad == 0 && n >= 2, "R08.E", "unwrapped:mode."+strings.TrimPrefix(m, "*")+".ReadMsg", c.pos(f.Pos()), sprintf("%d exits return the connection's error, %d of them wrapped", n, bad))
+		if k == 0 {
+			r.Undecide("R08.E", "unwrapped:mode."+strings.TrimPrefix(m, "*")+".ReadMsg", c.pos(f.Pos()), "no Read of the connection found")
+		}
 	}
 	// the receive loop's EOF arm reconnects, the Canceled arm returns
 	if f := c.fn("R08.E", load.RootMod, "*MTProto", "startReadingResponses"); f != nil {
